@@ -205,7 +205,14 @@ def r2(ctx):
                       line=node.lineno, role="consumer:pairing",
                       expected="update(model.clusters[k], tasks[k].get())", found=str(elt)[:160], template=None)
         raise AnalysisError(f"the gather loop has {len(apps)} append sites; its length/order cannot be reconstructed: {str(t)[:80]}")
-    ctx.check(paired(t.elt, t.var), cons, "result k (tasks[k].get()) updates cluster k; the new list is in cluster order",
+    elt = t.elt
+    if not any(isinstance(x, App) and x.fn in (".get", ".result") for x in tm.subterms(elt)):
+        # the element is an object completed by field stores (update helper folded into the gather loop): the values stored
+        # into it are part of what the list receives
+        extra = [s_.value for s_ in bc.stores() if s_.attr and s_.idx is None and s_.base == elt]
+        if extra:
+            elt = tm.Tup([elt] + extra)
+    ctx.check(paired(elt, t.var), cons, "result k (tasks[k].get()) updates cluster k; the new list is in cluster order",
               line=target.stmt.lineno, role="consumer:pairing",
               expected="[update(model.clusters[k], tasks[k].get()) for k in order]", found=str(t)[:160])
     want_len = tm.length(Attr(Sym("model"), "clusters"))
